@@ -80,6 +80,7 @@ class Report:
         self.violations: dict[str, list[dict]] = {}  # sig -> occurrences (unknown sigs)
         self.known_seen: dict[str, int] = Counter()  # finding id -> count
         self.known = load_findings(prop)
+        self.known_sigs: dict[tuple[str, str], int] = Counter()  # triage aid (VERIF_DUMP_KNOWN=1)
         self.extra: dict[str, Any] = {}
         self.assumptions: list[str] = []
         self.rule = ""
@@ -116,6 +117,8 @@ class Report:
         f = self.match_known(sig)
         if f is not None:
             self.known_seen[f["id"]] += 1
+            if os.environ.get("VERIF_DUMP_KNOWN"):
+                self.known_sigs[(f["id"], sig)] += 1
             return False
         occ = self.violations.setdefault(sig, [])
         if len(occ) < 3:
@@ -167,6 +170,8 @@ class Report:
         for f in self.known:
             if self.known_seen.get(f["id"]):
                 print(f"KNOWN-FINDING: property={self.prop} {f['id']}: {f['what']} (seen {self.known_seen[f['id']]}x)")
+        for (fid, sig), n in sorted(self.known_sigs.items()):
+            print(f"KNOWNSIG {n:6d} {fid}  {sig}")
         nviol = 0
         replay_paths = []
         if os.environ.get("VERIF_DUMP_SIGS"):
